@@ -806,3 +806,48 @@ def print_case(cfg, events, trace):
     print("cfg", dict(zip(Cfg.FIELDS, cfg.line())))
     for ev, st, en in zip(events, steps, ends):
         print("%-18s %-22s -> %s   lp/lc=%s" % (EV_NAMES[ev[0]], list(ev[1:]), st, en))
+
+
+def canon_trace(trace):
+    """comparison form of a trace: DelayedCall.cancel() has no callbacks, so WHERE inside a step a timer is cancelled is
+    not observable; the cancellations of a step are moved to its end, sorted (reordering the independent blocks of stop()
+    is then not a difference).  Everything else keeps its order."""
+    if trace == [-99]:
+        return trace
+    steps, ends = split_steps(trace)
+    out = []
+    for st, en in zip(steps, ends):
+        keep = [o for o in st if o[0] != OUT_CANCEL_TIMER]
+        canc = sorted(o for o in st if o[0] == OUT_CANCEL_TIMER)
+        for o in keep + canc:
+            out.extend(o)
+        out.extend((OUT_END,) + tuple(en))
+    return out
+
+
+def correspond(ck, model, module, cases, impl_traces, label, nontrivial=None, describe=None):
+    """vlib.Check.correspond with traces compared in canonical form (canon_trace); same evidence bookkeeping"""
+    import hashlib
+    mo = ck.model(model, cases)
+    diffs = [i for i, (a, b) in enumerate(zip(impl_traces, mo)) if canon_trace(list(a)) != canon_trace(list(b))]
+    n, bad = ck.coq_sample(model, module, [(c, o) for c, o in zip(cases, mo)])
+    if bad:
+        raise vlib_abort()("extracted model and vm_compute disagree on %d of %d sampled cases (%s)" % (bad, n, label))
+    st = ck.cov["correspondence"].setdefault(label, {"cases": 0, "differences": 0, "in_coq_sample": 0})
+    st["cases"] += len(cases)
+    st["differences"] += len(diffs)
+    st["in_coq_sample"] += n
+    ck.cov["evaluations"] += len(cases)
+    for i, c in enumerate(cases):
+        if nontrivial is None or nontrivial(c, impl_traces[i]):
+            ck._distinct.add(hashlib.sha1(" ".join(str(int(x)) for x in c).encode()).digest()[:8])
+    if cases and len(ck.cov["samples"]) < 6:
+        k = min(len(cases) - 1, 3)
+        ck.cov["samples"].append({"correspondence": label, "case": (describe(cases[k]) if describe else cases[k][:60]),
+                                  "impl": list(impl_traces[k])[:40], "model": mo[k][:40]})
+    return diffs, mo
+
+
+def vlib_abort():
+    import vlib
+    return vlib.CheckAbort
